@@ -7,10 +7,10 @@ ENGINES = {
 
 PROP = {
     "engines": ["crash"],
-    "lean_modules": ["AxVerif.Model.Durable", "AxVerif.Model.Recovery", "AxVerif.Lemmas.Recovery", "AxVerif.Lemmas.RecoveryR1"],
-    "rule": 'one case = one workload (DDL, autocommit INSERT/UPDATE/DELETE, batches, committed / rolled-back / still-open sessions, failing statements, checkpoints, VACUUM, DROP TABLE; cache 10000 or 48) executed once under the I/O tap; every prefix of the mutation stream after which the file image differs is a crash point (at most 90 per case, those adjacent to fsync/truncate/call/return always kept); each image is opened, read back, closed, reopened, probed. Families: 40% clean region, 10% each open_txn, rb_update, no_init_ckpt, drop_table, vacuum, small_cache. Non-trivial = every workload (each has >= 4 units and >= 10 crash points); distinct = distinct case line.',
-    "assumptions": ['crash model: a crash preserves exactly a prefix of the issued write/truncate calls, each atomic (no reordering, no torn single write); fsync is not needed for a write to survive', 'workloads are stepped from one thread; units touch disjoint rows, so log-order redo and commit-order application coincide', 'tables have the shape (id BIGINT, v INT); DDL = CREATE/DROP TABLE; crash points before Database::create has returned are not explored', 'physical tearing of a B+tree across a partial set of page writes is only observed through the contents/probe, not modelled'],
-    "partial": 'Partial: as C01; steal (cache=48) is exercised but no eviction-specific theorem exists.',
+    "lean_modules": ["AxVerif.Model.Durable", "AxVerif.Model.Recovery", "AxVerif.Model.Journal", "AxVerif.Lemmas.Recovery", "AxVerif.Lemmas.RecoveryR1", "AxVerif.Lemmas.Journal"],
+    "rule": 'one case = one workload (DDL, autocommit INSERT/UPDATE/DELETE, batches, committed / rolled-back / still-open sessions, failing statements, checkpoints, VACUUM, DROP TABLE; cache 10000, or 8-16 frames with wide rows so that dirty pages are evicted between checkpoints) executed once under the I/O tap; every prefix of the mutation stream after which the file image differs is a crash point (at most 90 per case, those adjacent to fsync/truncate/call/return always kept); each image is opened, read back, closed, reopened, probed; for C08 up to 8 crash points per case are nested (the recovery of the image is itself run under the tap and crashed at every mutation); up to 45 points per case are also observed under the second crash model (of every file only what was written before its last fsync survives). Families: 40% clean region, 10% each open_txn, rb_update, no_init_ckpt, drop_table, vacuum, 5% steal, 5% big_log. Non-trivial = every workload (each has >= 4 units and >= 10 crash points); distinct = distinct case line.',
+    "assumptions": ['crash model A: a crash preserves exactly a prefix of the issued write/truncate calls, each atomic (no reordering, no torn single write); crash model B (observed, not part of the journal theorem): of every file only what had been written before its last fsync survives', 'workloads are stepped from one thread; units touch disjoint rows, so log-order redo and commit-order application coincide', 'tables have the shape (id BIGINT, v INT) or (id BIGINT, v INT, pad TEXT); DDL = CREATE/DROP TABLE; crash points before Database::create has returned are not explored', 'page contents are abstract in the journal model (Model/Journal.lean): the B+tree structure inside the pages is observed through contents and probe only'],
+    "partial": 'Partial: the stable store of the recovery model is logical; the page-level journal theorem is proved for crash model A; rolled-back UPDATE/DELETE is a listed finding of C03 seen through the live comparison.',
     "trusted": ['I/O tap in DBFile (feature verif): every create/write/set_len/sync/remove is reported in issue order', 'image rebuilder of the harness (applies the first k events to in-memory files and writes them to a scratch directory)'],
 }
 
@@ -18,6 +18,6 @@ TEXT = {
     "text": 'Theorems (Lean, unbounded): a transaction that is not a winner of the durable log (open, rolled back, failed, COMMIT not forced) leaves no trace — recovery equals recovery of the history with it erased (loser_leaves_no_trace, only_committed_contribute); a transaction whose COMMIT is durable has all its records durable (crash_shows_whole_transactions_only). Tie: at every explored crash point of real workloads the recovered contents must contain nothing beyond the acknowledged units plus, as a whole, the one in flight.',
     "design_ref": "DESIGN.md §5 C01/C02/C08",
     "note": "Trusted: Lean kernel + propext/Quot.sound/Classical.choice; the protocol model is hand-written (validated by the judge on real crash images, not verified against the Rust); "
-            "crash model = prefix of atomic writes; " + 'Partial: as C01; steal (cache=48) is exercised but no eviction-specific theorem exists.',
+            "crash model A = prefix of atomic writes (B observed only); " + PROP["partial"],
     "technique": "Lean 4 invariant proof over a WAL protocol machine + verified judge over real crash images (I/O tap)",
 }
